@@ -315,3 +315,8 @@ def _(E, c):
 
 VALUE_TYPES[DictM] = 'BTreeMap'
 VEC_LEN[DictM] = lambda E, d: IntV(len(d.items), 'usize')
+
+
+# `matches!(entry, Entry::Vacant(_))`: std's map Entry enums list Vacant first, Occupied second
+from .engine import SPECIAL_DISCR
+SPECIAL_DISCR[EntryM] = lambda E, e: IntV(0 if e.idx is None else 1, 'isize')
